@@ -21,6 +21,8 @@ CLAIMED = {
          "Every keyed operation of Registry is decided on all paths; RwLock and hashbrown's raw-entry API are trusted. Linearizability under contention is argued from these premises, not explored."),
  "C05": ("slot-protocol ordering/dominance, wait-before-read must-pass-through gates, link-before-publish dominance, seal-before-read fence, CAS-success-edge confinement of reads and epoch-deferred frees, over MIR of bucket.rs",
          "Decides the structural premises (necessary conditions) of the bucket's exactly-once argument on every path of Block::{push,len,data,is_quiesced,drop} and AtomicBucket::{push,data_with,clear_with}; exactly-once delivery under all interleavings itself is NOT decided (residue)."),
+ "C12": ("decision-table gates of Recency::should_store over MIR (switch-edge dominance), update-before-bump dominance in with_increment, forwarding of every Generational *Fn method, kind->state injectivity, series-identity agreement in the Prometheus exporter",
+         "Decides on every path that a metric is deleted only under all five conditions (incl. the strict comparison) and that bookkeeping is refreshed/removed as required; clock behaviour is not decided."),
 }
 checks = []
 for p in props:
